@@ -29,6 +29,7 @@ type c18Case struct {
 	P      *xast.Expr        `json:"p"` // absolute path from the root
 	R      *xast.Expr        `json:"r"` // relative path
 	Fn     string            `json:"fn,omitempty"`
+	Abbrev bool              `json:"abbrev,omitempty"` // written with every abbreviation ('//', '@', '..', no 'child::')
 }
 
 func leavesSubtree(x *xast.Expr) bool {
@@ -130,7 +131,11 @@ func TestC18(t *testing.T) {
 		P.Abs = true
 		P.Steps[0].DS = rapid.Bool().Draw(t, "pDS")
 		R := g.RelPath(2, 3)
-		c := &c18Case{Events: ev, NS: ns, P: P, R: R}
+		if rapid.IntRange(0, 3).Draw(t, "rDS") == 0 {
+			// the split falls on a '//': P//R, and R alone is './/...'
+			R.Steps[0].DS = true
+		}
+		c := &c18Case{Events: ev, NS: ns, P: P, R: R, Abbrev: rapid.Bool().Draw(t, "abbrev")}
 		if rapid.IntRange(0, 2).Draw(t, "fnCase") == 0 {
 			c.Fn = []string{"string", "number", "name", "local-name", "namespace-uri", "string-length", "normalize-space"}[rapid.IntRange(0, 6).Draw(t, "fn")]
 		}
@@ -149,7 +154,11 @@ func checkC18Compose(c *c18Case) error {
 		set = append(set, xsel.WithNS(k, v))
 	}
 	env := &xref.Env{Doc: p.doc, NS: c.NS}
-	pText := xast.RenderMinimal(c.P)
+	render := xast.RenderMinimal
+	if c.Abbrev {
+		render = func(x *xast.Expr) string { return xast.Render(x, xast.Abbrev, xast.Style{Abbrev: true}) }
+	}
+	pText := render(c.P)
 	if _, err := env.Eval(c.P, xref.Ctx{Node: p.doc.Root, Pos: 1, Size: 1}); err == xref.ErrOutOfScope {
 		st.Discard("out-of-scope")
 		return nil
@@ -170,7 +179,7 @@ func checkC18Compose(c *c18Case) error {
 		// P/f() equals f(P)
 		a := &xast.Expr{K: "path", Abs: true, Steps: append(append([]*xast.Step{}, c.P.Steps...), &xast.Step{Call: xast.Call(c.Fn)})}
 		b := xast.Call(c.Fn, c.P)
-		at, bt := xast.RenderMinimal(a), xast.RenderMinimal(b)
+		at, bt := render(a), render(b)
 		ga, err := buildExpr(at)
 		if err != nil {
 			return fmt.Errorf("BuildExpr(%q): %v", at, firstLine(err.Error()))
@@ -202,7 +211,7 @@ func checkC18Compose(c *c18Case) error {
 		st.Discard("out-of-scope")
 		return nil
 	}
-	fText, rText := xast.RenderMinimal(full), xast.RenderMinimal(c.R)
+	fText, rText := render(full), render(c.R)
 	gf, err := buildExpr(fText)
 	if err != nil {
 		return fmt.Errorf("BuildExpr(%q): %v", fText, firstLine(err.Error()))
